@@ -32,6 +32,15 @@ FEATURES_BIAS = ['default', 'enum', 'bits', 'bits_named', 'octets',
                  'int', 'optional', 'ext', 'ext_groups', 'choice', 'set',
                  'strings']
 PLAIN = (dict, list, tuple, str, int, float, bytes, bool, type(None))
+# any_defined_by_choices for corpus/dense5.asn and hand-written probes.
+ADBC = {('AnyMod', 'Fie', 'fum'): {1: 'INTEGER', 2: 'BOOLEAN'},
+        ('AnyMod', 'Foe', 'body'): {0: 'NULL', 3: 'IA5String'}}
+ADBC_PROBES = [('Fie', {'id': 1, 'fum': 5}),
+               ('Fie', {'id': 2, 'fum': True}),
+               ('Fie', {'id': 1, 'fum': b'\x02\x01\x05'}),
+               ('Foe', {'kind': 3, 'body': 'abc'}),
+               ('Foe', {'kind': 3, 'name': 'n', 'body': b'\x16\x01a'}),
+               ('Plain', {'a': 1})]
 
 
 def plain_only(value, depth=0):
@@ -141,6 +150,14 @@ class C13(Engine):
                                   'first': first, 'tier': tier,
                                   'seed': mix(seed, 'triples', name, first)})
 
+        # The any_defined_by_choices option of compile_dict (it is written
+        # into the dictionary): all ordered pairs with / without choices,
+        # for the codecs where it matters.
+        for codec in ['ber', 'der', 'per', 'uper', 'oer', 'jer']:
+            items.append({'kind': 'adbc', 'corpus': 'corpus/dense5.asn',
+                          'codec': codec, 'tier': tier,
+                          'seed': mix(seed, 'adbc', codec)})
+
         items.extend(Engine.plan(self, tier, seed, runs))
 
         return items
@@ -152,7 +169,33 @@ class C13(Engine):
         texts = dict(corpus_texts(item['tier']))
         text = texts[item['corpus']]
         result = Result()
-        first = CONFIGS[item['first']]
+        first = CONFIGS[item.get('first', 0)]
+
+        if item['kind'] == 'adbc':
+            codec = item['codec']
+            result = Result()
+
+            for pattern in ([True, False], [False, True], [True, True],
+                            [True, False, True], [False, False]):
+                steps_ = [{'op': 'compile', 'codec': codec,
+                           'numeric_enums': False, 'adbc': flag}
+                          for flag in pattern]
+                steps_.insert(1, {'op': 'persist'}) if len(pattern) == 3 \
+                    else None
+                case = {'text': text, 'name': item['corpus'],
+                        'steps': steps_, 'seed': item['seed'],
+                        'check': 'all'}
+                sub = self.execute(case)
+                result.stats.update(sub.stats)
+                result.violations.extend(sub.violations[:2])
+                result.merge_distinct(sub.distinct.items())
+                result.ticks += sub.ticks
+                result.evaluations += sub.evaluations
+                result.log.extend(sub.log)
+
+            result.stats['corpus-adbc-histories'] += 5
+
+            return result
 
         if item['kind'] == 'pairs':
             histories = [[first, second] for second in CONFIGS]
@@ -265,20 +308,23 @@ class C13(Engine):
         seed = case.get('seed', 0)
         prefix = []
 
-        def reference(codec, flag):
-            key = (codec, flag)
+        def reference(codec, flag, adbc=False):
+            key = (codec, flag, adbc)
 
             if key not in references:
                 compiled, ticks = steps.call(
-                    lambda: asn1tools.compile_string(text, codec,
-                                                     numeric_enums=flag),
+                    lambda: asn1tools.compile_string(
+                        text, codec,
+                        any_defined_by_choices=ADBC if adbc else None,
+                        numeric_enums=flag),
                     world.COMPILE_BUDGET)
                 result.ticks += ticks
                 digest = None
 
                 if compiled[0] == 'ok':
-                    probesets[key] = ProbeSet(fresh, seed, codec, flag, k=2,
-                                              max_types=8)
+                    probesets[key] = ProbeSet(
+                        fresh, seed, codec, flag, k=2, max_types=8,
+                        extra=ADBC_PROBES if 'AnyMod' in fresh else ())
                     digest = probesets[key].apply(compiled[1])
 
                 references[key] = (compiled, digest)
@@ -293,13 +339,13 @@ class C13(Engine):
                                    'persisted_before': persisted},
                              detail, small)
 
-        def check_compile(index, codec, flag, compiled, is_last):
-            expected, want = reference(codec, flag)
+        def check_compile(index, codec, flag, compiled, is_last, adbc=False):
+            expected, want = reference(codec, flag, adbc)
             result.evaluations += 1
             result.stats['compiles'] += 1
 
             if prefix:
-                result.key(text, prefix + [[codec, flag]])
+                result.key(text, prefix + [[codec, flag, adbc]])
 
             # A rejected compile yields no codec object; the statement says
             # nothing about the text of that rejection (it names the first
@@ -325,7 +371,7 @@ class C13(Engine):
             if case.get('check') == 'last' and not is_last:
                 return
 
-            got = probesets[(codec, flag)].apply(compiled[1])
+            got = probesets[(codec, flag, adbc)].apply(compiled[1])
             result.stats['digests-compared'] += 1
             difference = first_difference(got, want)
 
@@ -345,14 +391,18 @@ class C13(Engine):
 
             if op == 'compile':
                 codec, flag = step['codec'], step['numeric_enums']
+                adbc = bool(step.get('adbc'))
                 compiled, ticks = steps.call(
-                    lambda: asn1tools.compile_dict(live, codec,
-                                                   numeric_enums=flag),
+                    lambda: asn1tools.compile_dict(
+                        live, codec,
+                        any_defined_by_choices=ADBC if adbc else None,
+                        numeric_enums=flag),
                     world.COMPILE_BUDGET)
                 result.ticks += ticks
                 check_compile(index, codec, flag, compiled,
-                              index == last_compile)
-                prefix.append([codec, flag])
+                              index == last_compile, adbc)
+                prefix.append([codec, flag, 'choices'] if adbc
+                              else [codec, flag])
             elif op == 'cli_double':
                 # asn1tools convert / shell: the same dict compiled for the
                 # input and the output codec.
